@@ -18,6 +18,8 @@ from fst import FST
 SRCS = {
     'tuple':   'x = (a, bb)\ny\n',
     'call':    'r = f(a, *b, k=v, **d)\n',
+    'call3kw': 'r = f(x=1, *b, p=2, q=3, s=4)\n',
+    'call3st': 'r = f(k=1, *a, *b, *c)\n',
     'deco2':   '@d1\n@d2 (q)\ndef f(a, b=1):\n    return a\nz\n',
     'cls':     '@dd\nclass C(A, k=v):\n    x = 1\n',
     'binop':   'v = -a + b . c * (d)\n',
